@@ -14,6 +14,6 @@ def check(ctx, rep):
     runrules.deadline(ctx, rep, "R08.1", "R08.2")
     runrules.exit_discipline(ctx, rep, "R08.3", "R08.3", "R08.3", causes=('expired',))
     runrules.tidy_shape(ctx, rep, "R08.3t")
-    shutrules.cancellation_edges(ctx, rep, "R08.5")
+    shutrules.cancellation_edges(ctx, rep, "R08.5", prompt=True)
     predicates.config_verbatim(ctx, rep, "R08.6", ('timeout',))
     common.wrap_typestate(ctx, rep, "R08.7")
